@@ -4,6 +4,7 @@
 import Hs.Lemmas.ZincRtTok
 import Hs.Lemmas.ZincRtCoord
 import Hs.Lemmas.ZincRtTime
+import Hs.Lemmas.ZincRtDateTime
 namespace Hs.Zinc
 open Hs Hs.Scan
 
@@ -77,5 +78,36 @@ theorem tok_time (t : Time) (h : timeOk t = true) : TokRt (.time t) := by
   have := encChars_length_ge t.txt
   obtain ⟨s', e, h', hs'⟩ := lexRead_time t h s rest fuel hat hs hd (by omega)
   exact ⟨s', by simpa [lexImg] using e, Post.of_clean h' hs'⟩
+
+
+/-- the text of a timestamp token: chrono's RFC 3339 text, plus the zone's city name unless the zone is UTC -/
+def dtText (t : DateTime) : List Char :=
+  if t.tzid == "UTC".toList then t.txt else t.txt ++ [' '] ++ t.zone
+
+/-- a timestamp the reader accepts: ASCII token text of the shape `dtBytesOk` describes (valid calendar
+fields, fraction digits, `Z` / `Z Name` / `±hh:mm Name` with a zone name the zone table resolves) -/
+def dtOk (t : DateTime) : Bool :=
+  (dtText t).all (fun c => c.toNat < 128) && dtBytesOk ((dtText t).map byteOf)
+
+theorem encDateTime_eq (t : DateTime) : encDateTime t = encChars (dtText t) := by
+  unfold encDateTime dtText
+  by_cases h : (t.tzid == "UTC".toList) = true
+  · simp only [h, if_true]
+  · simp only [h, Bool.false_eq_true, if_false]
+    rw [encChars_append, encChars_append]
+    have : encChars [' '] = [32] := by decide
+    rw [this]
+
+theorem tok_datetime (t : DateTime) (h : dtOk t = true) : TokRt (.dateTime t) := by
+  simp only [dtOk, Bool.and_eq_true] at h
+  refine ⟨rfl, ?_⟩
+  intro s rest fuel hat hs hd hf
+  have henc : enc (.dateTime t) true = (dtText t).map byteOf := by
+    rw [enc, encDateTime_eq, encChars_all_ascii h.1]
+  rw [henc] at hat hf
+  obtain ⟨s', e, hp⟩ := lexRead_datetime _ h.2 s rest fuel hat hs hd (by omega)
+  refine ⟨s', ?_, hp⟩
+  rw [e, asciiChars_map_byteOf (all_ascii_mem h.1)]
+  simp [lexImg, dtVal, dtText]
 
 end Hs.Zinc
